@@ -125,6 +125,7 @@ type CSVBounds struct {
 	BigRows          bool // allow the >=1000 row RowCountHint path
 	BigRare          bool // ... but rarely (quick tier)
 	Cardinality      bool // now and then a column with 254..258 distinct values declared enum
+	HugeCell         bool // very rarely one cell beyond 16 MiB
 }
 
 // DrawCSV draws a well-formed document inside the space whose meaning is
@@ -194,6 +195,10 @@ func DrawCSV(t *rapid.T, b CSVBounds) *CSVCase {
 				if try == 0 && rapid.IntRange(0, 3).Draw(t, "fancyname") == 0 {
 					name = drawCell(t, 3, c.Delim, false)
 				}
+				if try == 0 && i == 0 && Rare(t, "directivename", 60) {
+					// names that look like a directive of some spreadsheet dialect
+					name = []string{"sep=;", "sep=,", "sep=|", "sep=", "#comment", "\ufeffid"}[rapid.IntRange(0, 5).Draw(t, "directive")]
+				}
 				if validName(name) && !seen[name] && !strings.Contains(name, "\r") {
 					break
 				}
@@ -227,9 +232,22 @@ func DrawCSV(t *rapid.T, b CSVBounds) *CSVCase {
 		cardinality = rapid.IntRange(254, 258).Draw(t, "distinctvals")
 		nrows = cardinality + rapid.IntRange(0, 3).Draw(t, "cardextra")
 	}
+	hugeCellOdds := uint64(10000)
+	if b.BigRare {
+		hugeCellOdds = 30000
+	}
+	hugeCell := b.HugeCell && !big && giantRow < 0 && cardinality == 0 && !c.OddHeader && Rare(t, "hugecell", hugeCellOdds)
+	if hugeCell {
+		// one cell beyond 16 MiB (length fields of 24 bits and their like)
+		nrows = rapid.IntRange(1, 3).Draw(t, "hugerows")
+	}
 	for r := 0; r < nrows; r++ {
 		row := make([]string, ncols)
 		for i := range row {
+			if hugeCell && r == nrows-1 && i == 0 {
+				row[i] = strings.Repeat("0123456789abcdef", 1<<20) + "tail-of-the-cell"
+				continue
+			}
 			if big {
 				row[i] = strconv.Itoa(r*7 + i)
 				if flav[i] >= 3 {
